@@ -100,3 +100,9 @@ PROPS['C08'] = dict(
     stages=[dict(name='sched', bin='pbsched', args=['-points', _PTS], shards=shards(8, 14), par=8, timeout=2400, env={'GOMAXPROCS': '2'}, crash_is_violation=True, crash_key='buffer:crash')],
     need_counters=['quiescent_points_inspected', 'quiescent_points_with_parked_readers', 'dfs_schedules', 'schedule_steps'],
 )
+
+PROPS['C12'] = dict(
+    level='exploration', builds={'udpsched': dict(pkg='./cmd/udpsched', overlay='yield')},
+    stages=[dict(name='sched', bin='udpsched', shards=shards(8, 14), par=14, timeout=2400, crash_is_violation=True, crash_key='udp:crash')],
+    need_counters=['quiescent_points_inspected', 'rebind_and_leak_probes', 'dfs_schedules', 'schedules_with_close_tasks'],
+)
